@@ -576,6 +576,48 @@ fn wire_leg(rep: &mut Report, seed: u64, n: usize) {
                 Err(e) => rep.violation("C12/wire/client-cat-failed", json!({"options": format!("{:?}", opts), "error": e})),
             }
         }
+        // a large export through the client library with a consumer slower than the socket: the whole store, not a
+        // prefix of it (what `xs cat | xs import` relies on)
+        {
+            sess.call_t(json!({"op": "bulk", "n": 600, "size": 300, "tag": 5, "topic": "bulk"}), Duration::from_secs(120))?;
+            let direct = sess.call(json!({"op": "read_sync", "digest": true}))?;
+            let expect: Vec<(u128, u64)> = crate::model::parse_pairs(&direct["frames"]);
+            let opts = ReadOptions::builder().build();
+            rep.eval();
+            let got = rt.block_on(async {
+                let mut rx = xs::client::cat(&addr, opts.clone(), false).await.map_err(|e| e.to_string())?;
+                // let the response pile up before the first read, then read with small pauses
+                tokio::time::sleep(Duration::from_millis(300)).await;
+                let mut buf = vec![];
+                let mut n = 0u64;
+                loop {
+                    match tokio::time::timeout(Duration::from_secs(30), rx.recv()).await {
+                        Ok(Some(b)) => {
+                            buf.extend_from_slice(&b);
+                            n += 1;
+                            if n % 8 == 0 {
+                                tokio::time::sleep(Duration::from_millis(1)).await;
+                            }
+                        }
+                        Ok(None) => return Ok::<_, String>((buf, true)),
+                        Err(_) => return Ok((buf, false)),
+                    }
+                }
+            });
+            match got {
+                Ok((buf, ended)) => {
+                    let frames: Vec<(u128, u64)> = crate::http::ndjson(&buf).into_iter().filter_map(|v| serde_json::from_value::<Frame>(v).ok()).map(|f| (f.id.to_u128(), crate::session::frame_digest(&f))).collect();
+                    rep.count("wire.large_exports_compared", 1);
+                    rep.count("wire.large_export_frames", frames.len() as u64);
+                    if !ended {
+                        rep.inconclusive("large export through the client did not end within 30 s");
+                    } else if frames != expect {
+                        rep.violation("C12/wire/large-export-through-the-client-is-not-the-whole-store", json!({"client_got": frames.len(), "direct_read": expect.len(), "is_prefix": frames.len() < expect.len() && frames[..] == expect[..frames.len()]}));
+                    }
+                }
+                Err(e) => rep.violation("C12/wire/client-cat-failed", json!({"options": "default (large store)", "error": e})),
+            }
+        }
         // the command-line client is a boundary too: a malformed --ttl is refused there (non-zero exit, nothing
         // stored); a well-formed one arrives as given
         if let Some(bin) = crate::session::self_exe().parent().map(|p| p.join("xs-real")).filter(|b| b.exists()) {
